@@ -12,6 +12,15 @@ for l in open('/verif/properties.jsonl'):
     p = json.loads(l)
     if p['id'] == pid:
         break
+import glob, os
+tried = []
+for mf in sorted(glob.glob('/verif/seeded/*/meta.json')):
+    m = json.load(open(mf))
+    if m.get('property') == pid:
+        tried.append('   - ' + (m.get('title') or m.get('what_it_breaks') or '')[:200])
+avoid = ''
+if tried:
+    avoid = ('Earlier rounds already produced changes with the following ideas; yours must be DIFFERENT in root cause and in the part of the property they break (other operations, other clauses of the statement, other source files among the relevant ones where possible):\n' + '\n'.join(tried) + '\n\n')
 print("""You are helping to evaluate a verification effort by seeding a realistic defect. You work ONLY inside the git worktree %(wt)s (a checkout of the Python library PseudoNetCDF, which exposes atmospheric-science file formats through a netCDF-like API). Do not read or touch /verif or /repo, and do not look for other worktrees. Interpreter: /venv/bin/python (numpy 2.5, netCDF4, cftime installed; no network, no pyproj). To import the worktree's code use PYTHONPATH=%(wt)s/src (check with: PYTHONPATH=%(wt)s/src /venv/bin/python -c "import PseudoNetCDF; print(PseudoNetCDF.__file__)").
 
 The property under study (%(id)s: %(title)s):
@@ -21,7 +30,7 @@ The property under study (%(id)s: %(title)s):
   It is meant to hold %(qtext)s.
   Relevant source files: %(files)s
 
-Your task: produce TWO independent, realistic changes to the library source (each a separate small patch, different root causes, in code that the property depends on) such that with the change applied
+%(avoid)sYour task: produce TWO independent, realistic changes to the library source (each a separate small patch, different root causes, in code that the property depends on) such that with the change applied
   (1) the package still imports and the existing test suite still passes exactly as before: run `cd %(wt)s && PYTHONPATH=%(wt)s/src /venv/bin/python -m pytest -q -p no:cacheprovider --timeout=900 src/PseudoNetCDF/test 2>&1 | tail -15` before and after; on the unmodified worktree 8 tests fail (point_source x2, ProfileTest x2, test_pncopen x2, test_csv, testSonde) and 160 pass — the same set must pass/fail with your change (afterwards delete stray files the tests leave: `git -C %(wt)s clean -fq -- src/PseudoNetCDF/testcase`);
   (2) the property above is violated for SOME inputs / operation sequences, but NOT in a way ordinary use would expose at once: the violation should need something specific to manifest — an unusual but legitimate input (a particular combination of arguments, sizes, dtypes, dates, masks, orderings), a multi-step sequence of operations, a fault at a particular point, or two cooperating sites that each look fine alone. Think of plausible maintenance slips: an off-by-one at a boundary, a wrong axis for a rarely used rank, a dropped copy, a precedence swap, an optimisation that is wrong for an edge case, a refactoring that changes behaviour only for one branch. Not a blatant breakage (no `raise`, no returning garbage for every input).
 For each change deliver in %(wt)s/seed1/ and %(wt)s/seed2/:
@@ -29,5 +38,5 @@ For each change deliver in %(wt)s/seed1/ and %(wt)s/seed2/:
   - demo.py : a small standalone program run as `PYTHONPATH=%(wt)s/src /venv/bin/python demo.py` that exits 0 and prints PASS on the unmodified code and exits 1 and prints FAIL with your change applied; it must check the property itself (compare against an independent expectation computed with numpy / plain Python), not an implementation detail
   - meta.json : {"property": "%(id)s", "title": "...", "what_it_breaks": "...", "needs_to_manifest": "...", "files_changed": [...], "ran": ["commands you ran and their outcome"]}
 Do NOT use `git stash` (the stash is shared between worktrees of one repository and other agents work in sibling worktrees); to switch between the clean tree and your change use `git diff > file`, `git checkout -- .` and `git apply file`. Leave the worktree itself clean at the end (git -C %(wt)s checkout -- . ; only the untracked seed1/ seed2/ directories remain). Your final message: a short summary of both changes and confirmation of (1) and (2) with the observed outputs.""" % dict(
-    wt=wt, id=p['id'], title=p['title'], statement=p['statement'], qtext=p['quantifier']['text'], files=', '.join(p['anchors']['files'])))
+    wt=wt, avoid=avoid, id=p['id'], title=p['title'], statement=p['statement'], qtext=p['quantifier']['text'], files=', '.join(p['anchors']['files'])))
 PY
